@@ -168,3 +168,37 @@ TEXTS["C10"] = {
           "metadata operations durable when issued); the verif-tagged open hook leveldb/verif_on.go. Storage write errors are not injected. No axioms.",
   "technique": "Coq proof over a log/sync/crash micro-step model with the write option as parameter + exhaustive crash-point enumeration on a recording storage.Storage (3 tail choices, images reopened by unmodified code) + model-vs-code differential on crash observables + property-text monitors + mutant sensitivity",
 }
+
+TEXTS["C11"] = {
+  "text": "CLAIMED PARTIAL. Machine-checked proof (Coq) that an interleaving model of leveldb.DB and leveldb.SerialDB as they are after the fix commits F11/F14 is linearizable: for every number of goroutines, "
+          "every list of Put/Remove/Get/Has calls per goroutine, every schedule (timer flushes and, for SerialDB, the process loop serving ANY parked request included), every MaxBatchSize and initial LevelDB content, "
+          "the operations of the history can be arranged in one sequence that is legal for the sequential map specification and keeps the real-time order (writes at their batch mutation, reads at an instant of their "
+          "interval at which the register overlay(batch, disk) held the returned value); corollaries: a read that starts after a write returned never misses it; reads never go back. Proved by invariants over all "
+          "schedules, not by search. The pre-fix code (SerialDB swapping the batch out before writing it; DB.Get reading the batch without mutBatch) is kept in the model and refuted by vm_compute witnesses. "
+          "VALIDATED, not proved: that the Go code behaves like the model. The witness schedules are forced on the real code through verif pause points, seeded random park/release schedules and randomised stress "
+          "are run on real LevelDB directories, every recorded history is judged by an independent register linearizability checker, and the same workloads run under the Go race detector (data-race freedom is the "
+          "premise that licenses 'one lock-protected section = one atomic action').",
+  "note": "Trusted: Coq kernel; the hand-written model (atomic actions = mutBatch sections, batch-internal sections, goleveldb calls; tied to the code by forced schedules and stress, not by proof); the Go harness and its "
+          "checker; the race detector's coverage of the executed schedules only. Not modelled: Go memory model, preemption inside critical sections, Close/Destroy, LevelDB errors. No axioms (Closed under the global context). "
+          "Sensitivity: with either fix reverted the forced schedules and the checker report non-linearizable histories.",
+  "technique": "Coq proof (rely/guarantee invariants over a small-step interleaving semantics, linearization order exhibited) + forced schedules via pause hooks + randomised stress + linearizability checker + race detector",
+}
+TEXTS["C14"] = {
+  "text": "CLAIMED PARTIAL. Machine-checked (Coq, Props/C14.v, 21 theorems, no axioms): (a) hash index with chunk-locked map step and SEPARATE atomic counter updates, arbitrary threads of addTx/removeTx "
+          "calls, arbitrary schedules: counter + owed increments - owed decrements = |map| (and bytes) at every instant (C14_counters_every_instant), hence CountTx = |map| and NumBytes = sum of sizes once all "
+          "threads finished (C14_quiescent_counters); false with a concurrent Clear (C14_quiescent_counters_with_clear_refuted: counter -1 over an empty map). (b) a sender list copied under its lock from any "
+          "state satisfying the sender-list invariant, or after ANY sequence of the three list operations, is a legal bunch; snapshots of distinct senders from different pool states form legal bunches; C01 and all "
+          "C02 clauses hold for the selection on them (C14_selection_any_snapshot, C14_select_any_snapshot); per-sender count limit after any sequence of list operations. (c) add-only threads under any schedule: final "
+          "per-sender lists = those of the sequential run, every added transaction present, lists sorted, nothing else (C14_adds_commute; duplicates among calls allowed). (d) interleaving of atomic steps = sequential run "
+          "of a history respecting program order (C14_atomic_sections, _every_instant, _instants_are_prefixes); immunity cache: Count <= MaxNumItems and the C12 invariant at every instant, immunized items survive, "
+          "both with operations atomic and with ImmunizeKeys split into its per-chunk sections as in the code (C14_bounds_every_instant[_fine], C14_immune_survive[_added_later|_fine|_fine_added_later]); the stale "
+          "capacity gate can over-immunize (C14_stale_gate_exceeds_refuted, outside C14's text). (e) lock-order: acyclicb_sound; the repository's held->acquired graph (20 mutex fields, 10 static + 45 interface-dispatch "
+          "edges) is re-extracted on every run and its acyclicity is decided inside Coq. VALIDATED, NOT PROVED: absence of data races (race detector over all public operations of TxCache, CrossTxCache/ImmunityCache, "
+          "both LRU kinds with handlers and evict callback, capacityLRU, FIFO sharded cache, TimeCache/peerTimeCache/timeCacher with sweeps, ConcurrentMap), of panics and of deadlocks (watchdog), under varied GOMAXPROCS, "
+          "seeded delays at the four txcache pause points and yields in callbacks; and the property's monitors on those runs: C01+C02 on every concurrent selection, all-present/sorted after add-only phases, immunized items "
+          "found at every later probe, Count/Len/per-sender bounds at every probe, CountTx=|Keys| and NumBytes=sum Size at every quiescent instant.",
+  "note": "Trusted: Coq kernel; the hand-written interleaving models (each critical section = one step; justified by the race-detector verdict, not proved); the Go harness, its monitors, the verif-tagged pause hook; the "
+          "syntactic lock-graph extractor (conservative, type-level mutex identity, no type checker); Go's race detector and scheduler. The explored schedules are a sample. No axioms.",
+  "technique": "Coq proofs over interleaving models (invariant over all schedules; interleaving = sequential history; corollaries of C01/C02/C12/C13) + race-detector stress with delay injection, watchdog, property-text monitors "
+               "on concurrent runs + Coq-decided acyclicity of a lock-order graph extracted from the source on every run + mutant sensitivity",
+}
